@@ -16,6 +16,16 @@ use num_bigint::BigInt;
 
 pub const ONE: i128 = 1 << 48;
 
+/// vault·2^96 − (S_A·asv − S_L·lsv + fees·2^48) of one bank, exact
+pub fn slack_of(w: &World, h: &BankHandle) -> BigInt {
+    let bank = w.bank(&h.bank);
+    let v = BigInt::from(w.token_amount(&h.liquidity_vault));
+    let claims = big(fx(bank.total_asset_shares)) * big(fx(bank.asset_share_value))
+        - big(fx(bank.total_liability_shares)) * big(fx(bank.liability_share_value))
+        + (big(fx(bank.collected_insurance_fees_outstanding)) + big(fx(bank.collected_group_fees_outstanding)) + big(fx(bank.collected_program_fees_outstanding))) * big(ONE);
+    v * big(ONE) * big(ONE) - claims
+}
+
 pub struct User {
     pub wallet: Pubkey,
     pub acct: Pubkey,
@@ -326,20 +336,20 @@ impl Scen {
             let asv = big(fx(pre.asset_share_value).max(fx(post.asset_share_value)));
             let lsv = big(fx(pre.liability_share_value).max(fx(post.liability_share_value)));
             let dt = (now - pre.last_update).max(0);
-            // accrual allowance: TL·(dt/Y + 2) + S_L + base·TL·dt/(Y·TA) + 2^48   (see DESIGN §4 C01)
+            // accrual allowance (theorem Mfi.Props.C01.accrue_step): TL + S_L + ⌊lending·dt/Y⌋, lending ≤ base ≤ 1000 %
             let ta = (big(fx(pre.total_asset_shares)) * big(fx(pre.asset_share_value))) >> 48u32;
             let tl = (big(fx(pre.total_liability_shares)) * big(fx(pre.liability_share_value))) >> 48u32;
             let year = BigInt::from(31_536_000u64);
             let mut allow = BigInt::from(0);
             if dt > 0 && Some(bi) == touched && tl > BigInt::from(0) && ta > BigInt::from(0) {
                 let base_max = big(10 * ONE); // every accepted curve is ≤ 1000 %
-                allow += &tl * (BigInt::from(dt) / &year + 2) + big(fx(pre.total_liability_shares)) + (&base_max * &tl * BigInt::from(dt)) / (&year * &ta) + &one;
+                allow += &tl + big(fx(pre.total_liability_shares)) + (&base_max * BigInt::from(dt)) / &year + 1;
             }
             match act {
-                Act::Withdraw { all: false, .. } => allow += &asv + &lsv,
-                Act::Borrow { .. } => allow += &asv + &lsv + &one, // + origination fee booked by truncating division
+                // theorems decrease_step / borrow_fee_step / repay_all_step / withdraw_all_step
+                Act::Withdraw { all: false, .. } => allow += &asv + &lsv + 1,
+                Act::Borrow { .. } => allow += &asv + &lsv + 1 + &one, // + the origination fee split booked by truncating multiplication
                 Act::Repay { all: true, .. } => allow += &one,
-                Act::Withdraw { all: true, .. } => allow += &one,
                 _ => {}
             }
             if Some(bi) == touched && d1 < d0 - &allow {
